@@ -71,6 +71,15 @@ def run_case(case, ctx):
     for op in case["ops"]:
         be.apply(t, model, op, ctx)
     if not model:
+        # (the property speaks of non-empty tries; on an empty one - its root an equal but not
+        # identical copy of the blank hash - the helpers must at least agree that nothing is there)
+        for k in (b"\x01", b"\x12\x34"):
+            if cut(check_if_branch_exist, db, t.root_hash, k):
+                raise Violation("bin-branch-exist", "check_if_branch_exist(%s) is true on an empty trie" % hx(k))
+            if cut(t.get, k) is not None:
+                raise Violation("bin-lookup", "get on an empty trie returned a value")
+        if list(cut(get_trie_nodes, db, t.root_hash)):
+            raise Violation("bin-trie-nodes", "get_trie_nodes of an empty trie yields nodes")
         ctx.count("empty_skipped")
         return
     tb, dbb = be.new_trie()
@@ -99,6 +108,10 @@ def run_case(case, ctx):
     ctx.count("trie_nodes_checks")
 
     probes = be.probes(rnd, model)
+    if case.get("maxprobes") and len(probes) > case["maxprobes"]:
+        # a ladder: the base key (its branch has one node per bit, plus the leaf), a few others
+        lens = sorted(model, key=lambda s: len(cut(get_branch, db, root, s)))
+        probes = [lens[-1], lens[0]] + rnd.sample(probes, case["maxprobes"] - 2)
     for k in probes:
         truth = model.get(k)
         related = any(prefix_related(k, s) for s in model)
@@ -145,7 +158,11 @@ def run_case(case, ctx):
                 ctx.count("wrong_claims_rejected")
             # corruptions
             bad = []
-            for i in range(len(br)):
+            positions = range(len(br))
+            if len(br) > 40:
+                # a ladder: the ends and a sample of the middle
+                positions = sorted(set([0, 1, len(br) - 2, len(br) - 1] + rnd.sample(range(len(br)), 8)))
+            for i in positions:
                 bad.append(("drop", br[:i] + br[i + 1:]))
                 f = flip(br[i], rnd)
                 if f is not None:
@@ -179,6 +196,8 @@ def run_case(case, ctx):
     for k in model:
         for i in range(len(k) + 1):
             prefixes.add(k[:i])
+    if case.get("maxprobes") and len(prefixes) > 60:
+        prefixes = set(rnd.sample(sorted(prefixes), 60)) | {b""}
     for p in sorted(prefixes):
         w = cut(get_witness_for_key_prefix, db, root, p, expect=(InvalidKeyError,))
         if isinstance(w, Raised):
@@ -229,6 +248,13 @@ def run_shard(ctx):
     rnd = ctx.rnd
     mod = sys.modules[__name__]
     n = 250 if ctx.tier == "quick" else 2000
+    ladder = be.gen_ladder(rnd, rnd.choice([32, 32, 40]))
+    ladder["ops_b"] = []
+    ladder["pseed"] = rnd.randrange(1 << 30)
+    ladder["maxprobes"] = 12
+    if ctx.shard % 2 == 0 or ctx.tier == "thorough":
+        run_case_guarded(mod, ladder, ctx)
+        ctx.count("ladders")
     for i in range(n):
         if i % 25 == 24:
             case = be.gen_ops(rnd, rnd.randint(40, 80), mode=rnd.choice(["dense", "fix2", "k32", "var"]))
